@@ -8,13 +8,18 @@ From CG Require Import Base.Prelude Model.Ast Model.Lexer.
 Definition adv (i i' : input) : Prop :=
   exists w, rest i = append w (rest i') /\ at_ i' = adv_str w (at_ i).
 
+(** ... some non-empty text *)
+Definition adv1 (i i' : input) : Prop :=
+  exists w, w <> EmptyString /\ rest i = append w (rest i') /\ at_ i' = adv_str w (at_ i).
+
 (** [i] is a true position of the text [s] *)
 Definition at_pre (s : string) (i : input) : Prop :=
   exists pre, s = append pre (rest i) /\ at_ i = adv_str pre pos0.
 
-(** a span whose start and end are true positions of [s], the end not before the start *)
+(** a span whose start and end are true positions of [s], the end after the start (every
+    construct has at least one byte) *)
 Definition span_ok (s : string) (sp : span) : Prop :=
-  exists i i', at_pre s i /\ adv i i' /\ sp = from_range i i'.
+  exists i i', at_pre s i /\ adv1 i i' /\ sp = from_range i i'.
 
 Fixpoint spans_ok (s : string) (e : expr) : Prop :=
   match e with
@@ -31,3 +36,10 @@ Definition stmt_ok (s : string) (st : statement) : Prop :=
   | NontermDef _ nsp sh rhs =>
       span_ok s nsp /\ match sh with Some (_, ssp) => span_ok s ssp | None => True end /\ spans_ok s rhs
   end.
+
+(** [sp] starts at the position of a byte of [text] (C13: "the line and column at which the
+    construct really starts"): line and start column are the nom_locate position reached after
+    some prefix [pre], and something follows. *)
+Definition pos_ok (text : string) (sp : span) : Prop :=
+  exists pre rest, text = append pre rest /\ rest <> EmptyString
+    /\ sline sp = pline (adv_str pre pos0) /\ scol sp = pcol (adv_str pre pos0) /\ 1 <= secol sp.
